@@ -181,4 +181,8 @@ def run(chk):
     chk.assumptions.append("ASSUMED: hugr convert_u / convert_s round the unsigned / signed reading to nearest-even; NoopCompiler emits no op (bit pattern unchanged)")
     chk.assumptions.append("Context.globals.get_instance_func / check_call are mocked: the obligation is which method of which type is requested, with which arguments")
     chk.expected_min_obligations = 35
+    # array literals: an element is coerced towards the element type fixed by the EARLIER elements,
+    # never the other way round (shared obligation with C12)
+    from .C12 import array_literal_threading
+    array_literal_threading(chk, e, tag="array-literal:")
     chk.use_engine(e)
